@@ -341,6 +341,11 @@ public:
         if (auto Sz = NE->getArraySize()) O["arr"] = stmt(*Sz);
       }
       if (NE->getInitializer()) O["init"] = stmt(NE->getInitializer());
+      // new (std::nothrow) T: yields a null pointer instead of throwing when the allocation fails
+      for (unsigned i = 0; i < NE->getNumPlacementArgs(); ++i) {
+        std::string PT = NE->getPlacementArg(i)->getType().getUnqualifiedType().getAsString();
+        if (PT.find("nothrow_t") != std::string::npos) O["nothrow"] = true;
+      }
       return std::move(O);
     }
     if (auto *DE = dyn_cast<CXXDeleteExpr>(S)) {
